@@ -272,3 +272,59 @@ def faithful_clone(F, R, rule, im):
     R.check(not problems, rule, "%s:%s:faithful-clone" % (rule, ty), "%s:%s" % (im["file"], im["line"]),
             "hand-written Clone of %s is content-blind and field-faithful (%d function(s))" % (ty.rsplit("::", 1)[-1], n_fn),
             "hand-written Clone of %s: %s" % (ty, "; ".join(problems)))
+
+
+def failure_sources(F, root, follow):
+    """inventory of where an Err returned by `root` can originate: {(function, source)} with source = 'local Err' for an Err built in
+    that function or the external callee whose error is propagated; workspace callees accepted by follow(fid) are expanded."""
+    out, seen, work = set(), set(), [root]
+    while work:
+        fid = work.pop()
+        fn = F.body_of(fid) if hasattr(F, "body_of") else F.fns.get(fid)
+        if fn is None:
+            fn = F.fns.get(fid)
+        if fn is None or fn["id"] in seen:
+            if fn is None:
+                out.add((fid, "no-body"))
+            continue
+        seen.add(fn["id"])
+        B = mir.Body(fn, F)
+        for o in B.origins(RET):
+            if o[0] == "agg":
+                if str(o[1]).endswith("Result::Err"):
+                    out.add((fn["id"], "local Err(%s)" % _agg_chain(B, o[2], "Err")))
+                continue
+            if o[0] == "call":
+                if follow(o[1]):
+                    work.append(o[1])
+                else:
+                    out.add((fn["id"], q.base_name(o[1])))
+                continue
+            out.add((fn["id"], "%s" % (o[0],)))
+    return out, seen
+
+
+def _agg_chain(B, block, variant, depth=3):
+    """Error::Bpf(BpfErrorType::NullBpfObject) -> 'Bpf(NullBpfObject)' for the aggregate of `variant` built in `block`"""
+    for s in B.blocks[block]["stmts"]:
+        if s["k"] == "assign" and s["rv"]["k"] == "agg" and s["rv"].get("variant") == variant and s["rv"]["ops"]:
+            return _describe_payload(B, s["rv"]["ops"][0], depth)
+    return "?"
+
+
+def _describe_payload(B, o, depth):
+    names = set()
+    for x in B.origins(o):
+        if x[0] == "agg" and depth > 0:
+            head = str(x[1]).rsplit("::", 1)[-1]
+            inner = ""
+            for s in B.blocks[x[2]]["stmts"]:
+                if s["k"] == "assign" and s["rv"]["k"] == "agg" and str(s["rv"].get("variant") or s["rv"].get("adt") or "").endswith(head) and s["rv"]["ops"]:
+                    inner = _describe_payload(B, s["rv"]["ops"][0], depth - 1)
+                    break
+            names.add(head + ("(%s)" % inner if inner and not inner.startswith(("call", "param", "const", "<")) else ""))
+        elif x[0] == "call":
+            names.add("call")
+        else:
+            names.add(x[0])
+    return "|".join(sorted(names))
